@@ -188,7 +188,10 @@ class CFG:
             outs = []
             for case in st.cases:
                 outs += self._build(case.body, [(subj, "case")])
-            outs.append((subj, "nomatch"))
+            last = st.cases[-1] if st.cases else None
+            irrefutable = last is not None and last.guard is None and isinstance(last.pattern, ast.MatchAs) and last.pattern.pattern is None
+            if not irrefutable:
+                outs.append((subj, "nomatch"))
             return outs
         if isinstance(st, ast.Assert):
             # assert c  ==  if not c: raise AssertionError   (what follows is guarded by c)
